@@ -145,6 +145,14 @@ def finish(prop, tier, obligations, t0, level='model_checking', functions=(), bo
         exhaustive=False,
         trusted_base=['CrossHair 0.0.110 + engine patches (vf/chpatches.py)', 'z3 5.1.0', 'vf/wirespec.py (reference written from docs/encoding.rst)'],
     )
+    xcs = [o.desc['solver_crosscheck'] for o in obligations if isinstance(getattr(o, 'desc', None), dict) and o.desc.get('solver_crosscheck')]
+    if xcs:
+        cov['solver_crosscheck'] = dict(
+            what="sampled 'unsat' answers of the in-process z3 re-decided by the z3 4.8.12 and cvc5 1.0.3 binaries (20 s each); 'sat' from either is a harness error",
+            obligations_sampled=len(xcs), unsat_queries_rechecked=sum(x['unsat_queries_rechecked'] for x in xcs),
+            z3_4_8_12_unsat=sum(x['z3_4_8_12']['unsat'] for x in xcs), z3_4_8_12_inconclusive=sum(x['z3_4_8_12']['inconclusive'] for x in xcs),
+            cvc5_1_0_3_unsat=sum(x['cvc5_1_0_3']['unsat'] for x in xcs), cvc5_1_0_3_inconclusive=sum(x['cvc5_1_0_3']['inconclusive'] for x in xcs),
+            disagreements=sum(x['disagreements'] for x in xcs))
     if extra:
         cov.update(extra)
     ev = dict(property_id=prop, tier=tier, seed=seed(), level=level, coverage=cov, assumptions=list(assumptions),
